@@ -71,7 +71,17 @@ func CheckNoDuplicateKeys(raw []byte) (err error) {
 		}
 	}()
 	dec := json.NewDecoder(bytes.NewReader(raw))
-	return checkValue(dec, 0)
+	if err := checkValue(dec, 0); err != nil {
+		// The walk returns the decoder's own error for syntactically invalid
+		// JSON (a truncated or damaged download). Give it the code verify.go
+		// documents for a malformed index, so the refusal stays classifiable;
+		// errors that already carry a code (duplicate key, nesting) pass through.
+		if _, coded := conduiterr.Get(err); !coded {
+			return conduiterr.Wrap(CodeIndexIntegrity, "index is not well-formed JSON", err)
+		}
+		return err
+	}
+	return nil
 }
 
 // checkValue consumes exactly one JSON value (scalar, object, or array)
